@@ -5,7 +5,10 @@ package c18
 import (
 	"encoding/hex"
 	"fmt"
+	"github.com/mycoria/mycoria"
+	"github.com/mycoria/mycoria/config"
 	"math/rand/v2"
+	"net"
 	"net/netip"
 	"os"
 	"os/exec"
@@ -19,6 +22,7 @@ import (
 	"sync/atomic"
 	"syscall"
 	"time"
+	"verifharness/env"
 
 	"github.com/mycoria/crop"
 	"github.com/mycoria/mycoria/m"
@@ -34,6 +38,7 @@ func init() {
 		runtime.LockOSThread()
 	}
 	core.RegisterChild("c18save", childSave)
+	core.RegisterChild("c18inst", childInstance)
 	core.Register(&core.Prop{
 		ID:    "C18",
 		Level: "fault_enumeration",
@@ -285,6 +290,162 @@ func childSave(args []string) int {
 		return 7
 	}
 	return 0
+}
+
+// childInstance: vcheck child c18inst <statefile> <seed> <size> <how> <dumpfile> <port>
+// A whole relay-only router runs on the state file (mycoria.New + Start, the way the state file is really used),
+// the new state is installed through the instance's storage, and then the process dies:
+//
+//	how = "kill-before-stop": SIGKILL before the shutdown begins (a crash at byte offset 0 of the save)
+//	how = "fsize:<k>":        shutdown with RLIMIT_FSIZE=k (the save is cut after k bytes), then exit
+//	how = "clean":            clean shutdown
+func childInstance(args []string) int {
+	if len(args) < 6 {
+		return 3
+	}
+	path := args[0]
+	seed, _ := strconv.ParseUint(args[1], 10, 64)
+	size, _ := strconv.Atoi(args[2])
+	how := args[3]
+	r := rand.New(rand.NewPCG(seed, 0xC181))
+	id := env.NewIdentity(r, nil)
+	cfg, err := config.Store{
+		Router: config.Router{Address: id.Store(), Listen: []string{"tcp://127.0.0.1:" + args[5]}},
+		System: config.System{DisableTun: true, StatePath: path},
+	}.Parse()
+	if err != nil {
+		fmt.Fprintln(os.Stderr, "config:", err)
+		return 4
+	}
+	inst, err := mycoria.New("v0.0.0-verif", cfg)
+	if err != nil {
+		fmt.Fprintln(os.Stderr, "new:", err)
+		return 5 // the router refuses to start on this state file
+	}
+	if err := inst.Start(); err != nil {
+		fmt.Fprintln(os.Stderr, "start:", err)
+		return 5
+	}
+	st, ok := inst.Storage().(*storage.JSONFileStorage)
+	if !ok {
+		return 6
+	}
+	if err := install(st, generate(seed, size)); err != nil {
+		return 6
+	}
+	if err := os.WriteFile(args[4], []byte(dump(st)), 0o644); err != nil {
+		return 6
+	}
+	switch {
+	case how == "kill-before-stop":
+		_ = syscall.Kill(os.Getpid(), syscall.SIGKILL)
+		time.Sleep(10 * time.Second)
+		return 7
+	case strings.HasPrefix(how, "fsize:"):
+		k, _ := strconv.ParseUint(how[6:], 10, 64)
+		lim := syscall.Rlimit{Cur: k, Max: k}
+		if err := syscall.Setrlimit(syscall.RLIMIT_FSIZE, &lim); err != nil {
+			return 6
+		}
+	}
+	inst.Stop()
+	return 0
+}
+
+// instanceCases: the crash experiments of pairCase, on a whole router process (see childInstance).
+func (rn *runner) instanceCases(workDir string, seedBase uint64) {
+	res := rn.res
+	type ic struct {
+		s0size int // -1: no state file yet (first run of this router)
+		how    string
+	}
+	cases := []ic{{-1, "kill-before-stop"}, {3, "kill-before-stop"}, {-1, "fsize:0"}, {-1, "fsize:1"}, {3, "fsize:0"}, {3, "fsize:200"}, {-1, "clean"}, {3, "clean"}}
+	var wg sync.WaitGroup
+	for i, c := range cases {
+		wg.Add(1)
+		go func(i int, c ic) {
+			defer wg.Done()
+			dir := filepath.Join(workDir, fmt.Sprintf("inst%d", i))
+			_ = os.RemoveAll(dir)
+			_ = os.MkdirAll(dir, 0o755)
+			defer os.RemoveAll(dir)
+			path := filepath.Join(dir, "state.json")
+			desc := fmt.Sprintf("whole router process, previous state: %s, %s", map[bool]string{true: "none (first run)", false: fmt.Sprintf("%d routers", c.s0size)}[c.s0size < 0], c.how)
+			wit := map[string]any{"case": desc, "case_id": "instance|" + desc}
+			s0dump := ""
+			if c.s0size >= 0 {
+				st, err := storage.NewJSONFileStorage(path)
+				if err == nil {
+					err = install(st, generate(seedBase+uint64(i), c.s0size))
+				}
+				if err != nil {
+					res.Inconcl("instance case setup: %v", err)
+					return
+				}
+				s0dump = dump(st)
+				if err := st.Stop(); err != nil {
+					res.Inconcl("instance case setup save: %v", err)
+					return
+				}
+			}
+			port := freeTCPPort()
+			cmd := exec.Command(rn.exe, "child", "c18inst", path, strconv.FormatUint(seedBase+100+uint64(i), 10), "4", c.how, filepath.Join(dir, "s1.dump"), strconv.Itoa(port))
+			out, _ := cmd.CombinedOutput()
+			code := cmd.ProcessState.ExitCode()
+			if code == 5 {
+				res.Violate("start-refused:instance", fmt.Sprintf("%s: the router refused to start on a state file a clean save had written: %s", desc, tailStr(string(out), 300)), wit)
+				return
+			}
+			if code != 0 && code != -1 && !(c.how == "kill-before-stop") {
+				res.Count("instance_children_unusable", 1)
+				return
+			}
+			// the next start
+			got, err := loadDump(path)
+			if err != nil {
+				res.Violate("start-refused-after-crash:instance", fmt.Sprintf("%s: the next start fails: %v", desc, err), wit)
+				return
+			}
+			s1 := ""
+			if b, e := os.ReadFile(filepath.Join(dir, "s1.dump")); e == nil {
+				s1 = string(b)
+			}
+			if got != s0dump && got != s1 {
+				res.Violate("mixed-state-after-crash:instance", fmt.Sprintf("%s: the loaded state is neither the previous nor the new one: %s", desc, firstDiff(s1, got)), wit)
+				return
+			}
+			if c.how == "clean" && got != s1 {
+				res.Violate("roundtrip-differs:instance", fmt.Sprintf("%s: after a clean shutdown the next start loads something else than the router held: %s", desc, firstDiff(s1, got)), wit)
+				return
+			}
+			// ... and the router itself starts on that file
+			cmd2 := exec.Command(rn.exe, "child", "c18inst", path, strconv.FormatUint(seedBase+200+uint64(i), 10), "1", "kill-before-stop", filepath.Join(dir, "s2.dump"), strconv.Itoa(freeTCPPort()))
+			out2, _ := cmd2.CombinedOutput()
+			if cmd2.ProcessState.ExitCode() == 5 {
+				res.Violate("start-refused-after-crash:instance", fmt.Sprintf("%s: mycoria.New/Start fails on the state file left behind: %s", desc, tailStr(string(out2), 300)), wit)
+				return
+			}
+			res.Count("instance_crash_cases", 1)
+			res.Case("instance|"+desc, true)
+		}(i, c)
+	}
+	wg.Wait()
+}
+
+func tailStr(s string, n int) string {
+	if len(s) > n {
+		return s[len(s)-n:]
+	}
+	return s
+}
+
+func freeTCPPort() int {
+	l, err := net.Listen("tcp", "127.0.0.1:0")
+	if err != nil {
+		return 0
+	}
+	defer l.Close()
+	return l.Addr().(*net.TCPAddr).Port
 }
 
 // ---- parent side
@@ -875,6 +1036,7 @@ func run(c *core.Ctx) {
 			generations(res, rr, filepath.Join(c.WorkDir, fmt.Sprintf("gen%d", i)))
 		}
 	})
+	rn.instanceCases(c.WorkDir, r.Uint64())
 	parallel(len(pairs), func(w int) {
 		p := pairs[w]
 		rn.pairCase(c.WorkDir, w, p.s0seed, p.s0size, p.s1seed, p.s1size, c.Tier, p.stride)
@@ -884,6 +1046,7 @@ func run(c *core.Ctx) {
 	res.Assume("SIGKILL does not drop the page cache: a missing fsync/ordering problem that only shows after power loss is not observable here")
 	res.Assume("strings are valid UTF-8 (CBOR and CleanDomain reject anything else before it reaches the storage)")
 	res.Assume("UpdatedAt/Created are set by the storage on save; the expected new state is what the storage API reports before the save")
+	res.Require(res.Counter("instance_crash_cases") >= 6 || res.ViolationCount() > 0, "too few whole-router crash cases completed")
 	res.Require(res.Counter("state_pairs_completed") >= int64(len(pairs)*8/10), "too few state pairs completed all crash experiments")
 	res.Require(res.Counter("crash_with_file_cut_at_exactly_k") >= 50, "fewer than 50 crashes confirmed with a file cut at exactly k bytes")
 }
